@@ -4,7 +4,7 @@ counts as non-trivial, what is trusted."""
 TRUSTED_COMMON = [
     "Coq 8.16.1 kernel and vm_compute (no native_compute); coqchk in the thorough tier",
     "axioms: none (Print Assumptions of every theorem in Props/ must say 'Closed under the global context')",
-    "hand transliteration Rust -> Gallina of the modelled functions, validated by the correspondence check on the explored cases only",
+    "hand transliteration Rust -> Gallina of the modelled functions, tied to the code in two ways: (i) the method bodies are re-translated from the Rust source text on every run by translator/rs2coq.py + bodies.py (a symbolic executor for the Rust subset in use) and the Coq kernel checks, per state shape / execution path, that the model is convertible with the translated term (trusted: that translator and its conventions, DESIGN.md 4.2b and 8); (ii) the correspondence check on the explored cases",
     "harness (generators, exact rational type on checked i128, catch_unwind, Coq literal printer) and the Python driver",
     "rustc/cargo building /repo's working tree through path dependencies",
 ]
